@@ -46,8 +46,11 @@ def grid(rnd, thorough=False):
               ("schulz_zimm", (mean * 1.05, mean), "narrow"), ("schulz_zimm", (mean * 1.5, mean), "broad"), ("schulz_zimm", (mean * 3.0, mean), "z<1"),
               ("log_normal", (mean, 1.05), "narrow"), ("log_normal", (mean, 1.6), "broad"),
               ("poisson", (mean,), "mean")]
+    # very narrow Gaussians (sigma far below a thousandth of the mean): still a law with two possible block sizes around a unit boundary
+    g += [("gauss", (288.3, 0.25), "very_narrow"), ("gauss", (961.0, 0.6), "very_narrow"), ("gauss", (50000, 10), "very_narrow")]
     # laws with real probability mass below 1 (a support silently cut at 1 shows here and nowhere else)
-    g += [("log_normal", (3, 2.0), "mass_below_1"), ("log_normal", (1.5, 1.3), "mass_below_1"), ("gauss", (2, 1.5), "mass_below_1"), ("uniform", (0, 3), "mass_below_1")]
+    g += [("log_normal", (3, 2.0), "mass_below_1"), ("log_normal", (1.5, 1.3), "mass_below_1"), ("gauss", (2, 1.5), "mass_below_1"), ("uniform", (0, 3), "mass_below_1"),
+          ("poisson", (0.5,), "mass_below_1"), ("poisson", (2,), "mass_below_1"), ("poisson", (7,), "mass_below_1"), ("flory_schulz", (0.6,), "mass_below_1")]
     for a in ([0.5, 0.2, 0.1, 0.04] if not thorough else [0.9, 0.5, 0.35, 0.2, 0.1, 0.07, 0.04, 0.01]):
         g.append(("flory_schulz", (a,), "a<=0.05" if a <= 0.05 else "a"))
     for _ in range(4 if not thorough else 40):
